@@ -56,9 +56,12 @@ def orders_for(r, units, tier):
 
 
 def do_run(prep, o=None):
-    """one pass; `o` is None (sequential), a completion order of the units, or {"lookup_latency": seconds, "order": …}
-    (the kind-discovery call takes that long).  Plural discovery is made cold before every pass."""
+    """one pass; `o` is None (sequential), a completion order of the units, {"lookup_latency": seconds, "order": …}
+    (the kind-discovery call takes that long) or {"uniform_latency": seconds} (every GET takes that long).  Plural discovery is made cold before every pass."""
     wf_run.cool_lookups(prep)
+    if isinstance(o, dict) and "uniform_latency" in o:       # every read takes that long, whatever the order
+        lat = float(o["uniform_latency"])
+        return wf_run.run_prepared(prep, order=None, extra_latency=lambda i, method, key: lat if method == "GET" else 0.0)
     if isinstance(o, dict):
         return wf_run.run_prepared(prep, order=o.get("order"), lookup_latency=o["lookup_latency"])
     return wf_run.run_prepared(prep, order=o)
@@ -239,7 +242,7 @@ def run(tier: str) -> int:
         data = json.load(open(f))
         for case in data.get("cases", [data.get("case")] if data.get("case") else []):
             check_case(ck, drv, r, case, "thorough", "corpus")
-    n = 100 if tier == "quick" else 550
+    n = 100 if tier == "quick" else 450
     try:
         for i in range(n):
             for attempt in range(4):        # prefer workflows with at least two concurrent API-calling units
@@ -262,6 +265,18 @@ def run(tier: str) -> int:
         rg = rng("c02-groups")
         for i in range(20 if tier == "quick" else 200):
             check_case(ck, drv, rg, gen_wf.gen_group_collision_case(rg), tier, "same-kind-word-two-groups")
+        # third round: `steps` used as a whole next to a declared dependency; wide fan-outs whose every read is slow
+        # (but below the step time-out); consumers applying list/map functions to one dependency value
+        rw = rng("c02-whole-steps")
+        for i in range(20 if tier == "quick" else 200):
+            check_case(ck, drv, rw, gen_wf.gen_whole_steps_case(rw), tier, "steps-as-a-whole")
+        rf_ = rng("c02-fanout")
+        slow_reads = [{"uniform_latency": 3.0}, {"uniform_latency": 4.5}, {"uniform_latency": 9.0}]
+        for i in range(12 if tier == "quick" else 120):
+            check_case(ck, drv, rf_, gen_wf.gen_fanout_case(rf_), "quick", "wide-fan-out-slow-reads", extra=slow_reads)
+        ra = rng("c02-alias")
+        for i in range(10 if tier == "quick" else 100):
+            check_case(ck, drv, ra, gen_wf.gen_alias_case(ra), tier, "shared-dependency-value")
         rs = rng("c02-fe-switch")
         for i in range(15 if tier == "quick" else 150):
             check_case(ck, drv, rs, gen_wf.gen_foreach_switch_steps_case(rs), tier, "forEach-switch-on-steps")
